@@ -6,7 +6,7 @@ mcp.StreamableHTTPHandler; spec/StreamSrv.tla is the design model, spec/StreamSr
 spec/StreamSrvTrace.tla is the strict trace specification (binding / drift)."""
 import json, os, random, re
 from collections import deque
-import vlib, graphwalk
+import vlib, graphwalk, e2echeck
 
 PID = "C08"
 HARNESS = ["mcp/c08_streamsrv_test.go"]
@@ -538,7 +538,11 @@ def family_run(pid, tier, seed, replay):
 
     rows = []
     if replay:
-        rows = [json.load(open(replay))["replay"]["scenario"]]
+        rep = json.load(open(replay))["replay"]
+        if "e2e_scenario" in rep:   # a violation of the end-to-end part: only that part is replayed
+            e2echeck.run_e2e(v, pid, tier, seed, rep["e2e_scenario"])
+            return v.finish()
+        rows = [rep["scenario"]]
     else:
         # 1. design level: exhaustive model check at lock granularity
         for cfg in fam["mc"][tier]:
@@ -597,6 +601,8 @@ def family_run(pid, tier, seed, replay):
     phase("strict")
     for tid, start, trows in traces[:3]:
         v.sample({"trace": tid, "mode": mode_of(trows[0]), "steps": steps_of_trace(trows)[:14]})
+    if pid == "C08" and not replay:   # the end-to-end part (spec/StreamE2E.tla): real client against the real server
+        e2echeck.run_e2e(v, pid, tier, seed)
     return v.finish()
 
 
